@@ -31,3 +31,13 @@ Theorem C01_sort_is_permutation : forall (l : list subtoken),
   Permutation (stable_sort sub_full_leb l) l /\ Permutation (stable_sort sub_cat_leb l) l.
 Proof. intros l. split; apply stable_sort_perm. Qed.
 Print Assumptions C01_sort_is_permutation.
+
+(* parser correctness on canonical note text: for EVERY well-formed note (any digits, optional %n, any number of dots,
+   optional grace / appoggiatura mark, any pitch letter and octave, any accidental with or without display suffix, any
+   duplicate-free list of stand-alone signifiers) the scanner + listener, run on duration ++ pitch ++ accidental ++
+   signifiers, consume the whole text and return exactly the note's sub-tokens - so re-importing the normal form of a
+   single note yields the same token contents (no error, nothing shortened, nothing moved) *)
+From KV Require Import ScanProofs.
+Theorem C01_reimport_of_canonical_note : forall n, note_ok n -> kern_recognise (str (print_note n)) = KTok (note_token n).
+Proof. exact recognise_print. Qed.
+Print Assumptions C01_reimport_of_canonical_note.
